@@ -78,10 +78,20 @@ FixS1 == [i \in DOMAIN S1 |->
             THEN [S1[i] EXCEPT !.defs = @ @@ ("B" :> [type |-> "string", pattern |-> "b"])]
             ELSE S1[i]]
 
+(* S2: string-like documents under a conversion setting (format "path" -> support::Skewed, declared
+   with FromStr only; its Display is not its wire form) *)
+S2 == << Doc("S2", "conv-untagged-uuid", SOneOf(<< PathS, [type |-> "string", format |-> "uuid"] >>)),
+         Doc("S2", "conv-untagged-date", SOneOf(<< PathS, [type |-> "string", format |-> "date"] >>)),
+         Doc2("S2", "conv-alias-of-untagged", SRef("U"), "U", SOneOf(<< PathS, [type |-> "string", format |-> "uuid"] >>)),
+         Doc("S2", "conv-plain", PathS),
+         Doc2("S2", "conv-alias", SRef("P"), "P", PathS) >>
+S2Settings == [builder |-> FALSE,
+               convert |-> << [schema |-> PathS, ty |-> "crate::support::Skewed", impls |-> <<"FromStr">>] >>]
+
 IsStringDoc(dd) == LET t == dd.defs["T"] IN
     \/ (SHas(t, "type") /\ t.type = "string")
     \/ (SHas(t, "not") /\ SHas(t["not"], "enum") /\ \A i \in DOMAIN t["not"].enum : t["not"].enum[i].t = "str")
-StringUniverse == SelectSeq(QuickUniverse \o E1 \o E2 \o G5, IsStringDoc) \o FixS1
+StringUniverse == SelectSeq(QuickUniverse \o E1 \o E2 \o G5, IsStringDoc) \o FixS1 \o S2
 
 (* probe strings for string-like types: every string candidate of the
    schema plus fixed extras *)
